@@ -247,8 +247,10 @@ class C14(PropBase):
                 "(c14_reason_is_source, c14_platform_is_source, c14_process_state_is_source); on the regenerated enumeration tables Windows 0xC0000409 is the "
                 "fast-fail reason (shadowed by no earlier table), access violation / in-page error refine exactly for access types 0/1/8, the six Linux signals "
                 "refine by their si_code tables; the process id of a /proc/self/status text of any length is the decimal value of its first Pid line (0 on "
-                "overflow / absence); pid / create time precedence; per-frame unloaded-module offsets are exactly instruction - base of the covering unloaded "
-                "modules, never trapping (from C08). The model is compared with process_minidump on synthesized dumps in debug and release builds; an independent "
+                "overflow / absence; the general first-Pid-line form with str::parse::<u32> characterised exactly); on macOS / iOS and Linux / Android every reason has a "
+                "predicted Display string whenever membership agrees with the name tables (EXC_RESOURCE / EXC_GUARD renderings included); pid / create time precedence; per-frame unloaded-module offsets are exactly instruction - base of the covering unloaded "
+                "modules, never trapping (from C08). The model is compared with process_minidump on synthesized dumps (little- and big-endian, MemoryList or Memory64List, truncated Breakpad / misc "
+                "info streams, hostile status texts) in debug and release builds; an independent "
                 "oracle recomputes thread order, requesting thread, contexts, stack memory, crash address, crash reason (variant, payload, text where documented), "
                 "pid (own status parser), times, modules and offsets from the case.",
         "note": "Trusted: Coq kernel; the translator (parser + symbolic execution of a Rust subset) and the hand model it is proved equal to; C08 model; "
